@@ -143,7 +143,7 @@ impl NetProbe for LiveProbe {
         // token expiry on the client side
         for (i, cc) in cfg.clients.iter().enumerate() {
             if let Some(c) = sim.clients[i].as_ref() {
-                let elapsed_s = (sim.client_now_ms[i] - cfg.epoch_s * 1000 - cc.start_tick as u64 * cfg.dt_ms) / 1000;
+                let elapsed_s = (sim.client_now_ms[i] - sim.client_start_ms[i]) / 1000;
                 if c.is_connecting() && cc.silent_from.is_none() && elapsed_s > cc.expire + 1 && cc.addr_list.len() == 1 {
                     return Err(Violation::new(
                         "C18/client-keeps-connecting-after-token-expiry",
@@ -358,6 +358,39 @@ pub fn scenarios(tier: Tier) -> Vec<NetScenario> {
         c.horizon = 157;
         c.tail = 20;
         c.fates = vec![NFate::Ok, NFate::Drop];
+        v.push(c);
+    }
+    // clients whose clock has nothing to do with the token issuer's: far ahead, far behind, slightly ahead
+    for (cname, server_epoch, client_clock) in [("client clock 1000 s ahead", 0u64, 1000u64), ("client clock far behind", 8_640_000, 5), ("client clock 20 s ahead", 100, 120), ("client clock far ahead", 50, 1u64 << 33)] {
+        let mut cl = ClientCfg::new(1);
+        cl.clock_s = Some(client_clock);
+        let mut c = SimCfg::base(&format!("handshake 1 client dt=250ms, {}", cname), vec![cl]);
+        c.epoch_s = server_epoch;
+        c.horizon = 6;
+        c.tail = 14;
+        v.push(c);
+        // and the expiry on the client side still works on its own clock: challenge never arrives, token valid 4 s
+        let mut cl = ClientCfg::new(1);
+        cl.clock_s = Some(client_clock);
+        cl.expire = 4;
+        cl.timeout = 10;
+        let mut c = SimCfg::base(&format!("challenge never arrives, token valid 4 s, {}", cname), vec![cl]);
+        c.epoch_s = server_epoch;
+        c.server_silent_from = Some(0);
+        c.dt_ms = 500;
+        c.horizon = 4;
+        c.tail = 10;
+        c.fates = vec![NFate::Ok, NFate::Drop, NFate::Delay2];
+        v.push(c);
+    }
+    // a server with two public addresses; the token lists only the second one
+    {
+        let mut cl = ClientCfg::new(1);
+        cl.addr_list = vec![1];
+        let mut c = SimCfg::base("server with two public addresses, the token lists only the second", vec![cl]);
+        c.server_addrs = vec![server_addr(0), server_addr(1)];
+        c.alive = vec![true, true];
+        c.horizon = 5;
         v.push(c);
     }
     // all 32 listed addresses stay silent: the client gives up in an orderly way (no panic, disconnected with a reason)
